@@ -20,7 +20,7 @@ import re
 from lib import vk
 
 PKG = "search"
-FILES = ["c20_sched_test.go"]
+FILES = ["c20_sched_test.go", "c20_callers_test.go"]
 
 
 def consts(n, capi, capb, depth, mdepth, modes, emit):
@@ -76,7 +76,10 @@ def run(ctx):
     stuck = ""
     rnd = ctx.path("trace_random.ndjson")
     for name, run_, env, race in (("replay", "^TestVerif_C20_(Replay|Random)$", {"VERIF_IN": inp, "VERIF_OUT2": rnd}, False),
-                                  ("stress", "^TestVerif_C20_Stress$", {}, True)):
+                                  ("stress", "^TestVerif_C20_Stress$", {}, True),
+                                  # the callers: Search / StreamSearch / List of the real sharded searcher over real shards
+                                  # with a recording scheduler around the real ones (multi and the legacy semaphore one)
+                                  ("callers", "^TestVerif_C20_Callers$", {}, False)):
         rc, out, trace = ctx.driver(PKG, run_, FILES, env=env, out="trace_%s.ndjson" % name, timeout=3000, race=race)
         if rc != 0:
             if "semaphore: released more than held" in out and "sched.go" in out:
